@@ -403,6 +403,8 @@ type vmCheckOpts struct {
 	// shrunk on it and the reduced program is attached to the witness.
 	Orig     *spec.Program
 	Optimize bool
+	// NoDecisionWalk switches the bounded depth-first walk over decision sequences off
+	NoDecisionWalk bool
 }
 
 func vmCheck(k *h.Case, rp *spec.Program, out string, o vmCheckOpts, tag string) (ok bool) {
@@ -422,14 +424,8 @@ func vmCheck(k *h.Case, rp *spec.Program, out string, o vmCheckOpts, tag string)
 		paths := map[uint64]bool{}
 		// at least NStates states; keep going (up to 6x) while new instructions are still being reached
 		lastGain := 0
-		for si := 0; si < o.NStates || (si-lastGain < o.NStates && si < 6*o.NStates); si++ {
-			st := &ref.HashState{Seed: h.Hash64(k.C.Seed, k.Sub, k.Index, s.Entry, si), Cands: o.Cands}
-			rt := in.Run(st)
-			before := len(vm.Hits)
-			vt := vm.Run(st)
-			if len(vm.Hits) > before {
-				lastGain = si
-			}
+		// judge compares one pair of runs; false = violation reported
+		judge := func(rt, vt *ref.Trace, what string) bool {
 			k.Count("vm_runs", 1)
 			var a, b []string
 			if o.Full {
@@ -446,10 +442,10 @@ func vmCheck(k *h.Case, rp *spec.Program, out string, o vmCheckOpts, tag string)
 			}
 			if strings.HasPrefix(rt.Term, "problem:") {
 				k.C.Inconclusive("reference interpreter problem: %s", rt.Term)
-				continue
+				return true
 			}
 			if len(vt.Problems) > 0 || !eqStrings(a, b) {
-				msg := fmt.Sprintf("[%s] script %s, state %d: ", tag, s.Entry, si)
+				msg := fmt.Sprintf("[%s] script %s, %s: ", tag, s.Entry, what)
 				if len(vt.Problems) > 0 {
 					msg += "VM problem: " + strings.Join(vt.Problems, "; ") + "\n"
 				}
@@ -467,8 +463,42 @@ func vmCheck(k *h.Case, rp *spec.Program, out string, o vmCheckOpts, tag string)
 					}
 				}
 				k.Violation(key, msg, det)
+				return false
+			}
+			return true
+		}
+		for si := 0; si < o.NStates || (si-lastGain < o.NStates && si < 6*o.NStates); si++ {
+			st := &ref.HashState{Seed: h.Hash64(k.C.Seed, k.Sub, k.Index, s.Entry, si), Cands: o.Cands}
+			rt := in.Run(st)
+			before := len(vm.Hits)
+			vt := vm.Run(st)
+			if len(vm.Hits) > before {
+				lastGain = si
+			}
+			if !judge(rt, vt, fmt.Sprintf("state %d", si)) {
 				ok = false
 				break
+			}
+		}
+		// then walk the decision tree of the script depth-first (first queries answered 0/1, vars 0..2), which
+		// reaches branches that hash-derived states rarely take; bounded by a path budget
+		if ok && !o.NoDecisionWalk {
+			var dec []int
+			for n := 0; n < 4*o.NStates; n++ {
+				st := ref.NewDecState(dec)
+				rt := in.Run(st)
+				vt := vm.Run(st.Freeze())
+				k.Count("decision_walk_runs", 1)
+				if !judge(rt, vt, fmt.Sprintf("decisions %v", dec)) {
+					ok = false
+					break
+				}
+				next, more := ref.NextDecisions(dec, st.Arity, 14)
+				if !more {
+					k.Count("decision_walks_exhausted", 1)
+					break
+				}
+				dec = next
 			}
 		}
 		k.Count("decision_paths", int64(len(paths)))
@@ -480,6 +510,13 @@ func vmCheck(k *h.Case, rp *spec.Program, out string, o vmCheckOpts, tag string)
 		}
 		k.Count("instr_emitted", int64(ninstr))
 		k.Count("instr_executed", int64(len(vm.Hits)))
+		if _, reached := f.ReachProblems(sec, []int{sec.Start}, userTargetsOf(rp)); reached > 0 {
+			k.Count("instr_reachable_from_entry", int64(reached))
+			if len(vm.Hits)*10 >= reached*9 {
+				k.Count("scripts_with_90pct_of_reachable_instructions_executed", 1)
+			}
+			k.Count("scripts_run", 1)
+		}
 	}
 	return ok
 }
